@@ -31,7 +31,28 @@ one by O(iterations * eps * kappa); the bound therefore carries a factor 100 on 
 rounding:   bound = (100 t + 1000 eps kappa_2(A)) * max(1, ||dF/dy||) * ||A^-1|| * max(1, ||dR/dx||) + 100 eps |J|.
 With kappa <= ~10 this is ~1e-9..1e-8, i.e. the "1e-8 kappa" of the design; a wrong block is O(0.1 .. 1).
 
+Enumeration (E2, ``mc.product`` + ``mc.core.pmap``)
+  product   graph x mode {auto, direct, adjoint} x {sparse matrix, sparse matrix + LU, linear operator} x linear solver
+            x every non-empty subset of 3 design inputs x every non-empty subset of 3 outputs (49 requests, each on fresh
+            disciplines and a fresh MDA) x input point x MDA kind {MDAJacobi, MDAGaussSeidel, MDANewtonRaphson, MDAChain,
+            MDAChain(chain_linearize=True)} x representation of the disciplines' partials {dense, CSR, JacobianOperator}
+            (the -I of a self-coupling is applied by three different branches) x disciplines that fill only the requested
+            blocks / every block.  quick: full solver product for MDAGaussSeidel at point 0, the other axes crossed with
+            mode x matrix type at the default solver; thorough: see ``cases``.
+  history   two requests on the SAME objects, default configuration: (mda) add_differentiated_*(r1); linearize(x_p);
+            add_differentiated_*(r2); linearize(x_q) with (p, q) = (0, 1) and (1, 1) - the differentiated names only grow,
+            ``ALL`` = linearize(compute_all_jacobians=True) gives superset -> subset; (assembly) two arbitrary requests handed
+            to ``mda.assembly.total_derivatives`` (the public entry point that caches the minimal couplings of the last
+            (inputs, outputs) pair).  Every ordered pair of the request alphabet.
+
 Oracle boundaries (rule 1)
+* a block that was not requested but is returned anyway (Jacobian cached by a larger request at the same point) is
+  allowed and checked like the others; only *missing* requested blocks are violations.
+* the solvers built on the two-sided Lanczos recurrence (BICG, BICGSTAB, CGS, TFQMR) break down on the ``weakup``
+  systems (right-hand side = eigenvector of dR/dy^T) and gemseo raises RuntimeError("... breakdown"): accepted as a
+  loud "no result" for these four solvers, counted in the evidence; see ``_is_breakdown``.
+* a request must be answered within REQUEST_TIMEOUT = 20 s (normal cost < 0.1 s): invariant ``linearize-terminates``
+  (a harness guard; after it fires the remaining requests of that configuration are skipped and counted).
 * ``CG`` (and any factory algorithm whose description says the left-hand side must be symmetric / positive
   definite) is not applicable to dR/dy; removed from the solver axis, listed in the evidence notes.
 * differentiating with respect to a coupling variable raises "is both a coupling and a design variable"
@@ -39,8 +60,11 @@ Oracle boundaries (rule 1)
 * ``MDANewtonRaphson`` refuses systems with weakly coupled disciplines (documented ValueError): for the two weak
   graphs it is reached through ``MDAChain(inner_mda_name="MDANewtonRaphson")``.
 * ``use_lu_fact`` with a linear operator is refused by gemseo (ValueError): that combination is not a case.
-* the residual output ``r`` of a state equation is not among the requested outputs (its total derivative is 0 only
-  at an exactly converged state; the statement speaks about outputs of the coupled solution).
+* ``linearize(compute_all_jacobians=True)`` on MDAJacobi with an upstream weakly coupled discipline raises "is both a
+  coupling and a design variable" (the MDA keeps the weak couplings among "all inputs"; also on Sobieski): accepted
+  reading, counted; notes/fixes/c07_mda_compute_all_jacobians_weak_couplings.diff proposes to drop them.
+* the residual output ``r`` of a state equation is not in the request pools; when it is returned (ALL) its total
+  derivative must be the zero block the formula gives.
 """
 from __future__ import annotations
 
@@ -514,27 +538,29 @@ def signature(inv, cfg, shape, msg=""):
 
 
 def check_jac(jac, oracle: Oracle, ins, outs, exact_keys=True):
-    """[(invariant, message)] for one returned Jacobian dict against the oracle."""
+    """([(invariant, message)], worst error / bound) for one returned Jacobian dict against the oracle.
+
+    Requested blocks must be present; a block that was not requested but is returned anyway (e.g. the Jacobian cached by
+    an earlier, larger request at the same point) is not a violation of the statement - it is checked like the others
+    whenever the oracle knows the pair (oracle boundary; ``exact_keys`` is kept for the call sites and ignored)."""
     bad = []
     worst = 0.0
-    if not isinstance(jac, dict) and not hasattr(jac, "keys"):
+    if not hasattr(jac, "keys"):
         return [("jacobian-is-a-mapping", f"{type(jac).__name__}")], worst
     missing = [o for o in outs if o not in jac]
     if missing:
         return [("requested-output-present", f"outputs {missing} missing; keys {sorted(jac)}")], worst
-    if exact_keys:
-        extra = sorted(set(jac) - set(outs))
-        if extra:
-            bad.append(("only-requested-outputs", f"extra outputs {extra} (requested {sorted(outs)})"))
-    for o in outs:
+    known_out = set(oracle.owner)
+    known_in = set(oracle.design)
+    for o in list(outs) + sorted(k for k in jac if k in known_out and k not in outs):
         row = jac[o]
-        miss = [i for i in ins if i not in row]
+        miss = [i for i in ins if i not in row] if o in outs else []
         if miss:
             bad.append(("requested-input-present", f"d{o}/d{miss} missing; keys {sorted(row)}"))
             continue
-        if exact_keys and set(row) - set(ins):
-            bad.append(("only-requested-inputs", f"d{o}/d{sorted(set(row) - set(ins))} returned (requested {sorted(ins)})"))
-        for i in ins:
+        for i in list(ins) + sorted(k for k in row if k in known_in and k not in ins):
+            if i not in row:
+                continue
             ref, bound = oracle.total(o, i)
             try:
                 got = _dense(row[i])
